@@ -337,6 +337,17 @@ pub enum Mut {
     Chunk { op: &'static str, off: usize, other: usize },
     /// n-th seeded havoc mutant
     Havoc(u64),
+    /// An input produced outside the mutation engine (coverage-guided fuzzing stage, DESIGN.md §6 C05 "stage F"):
+    /// payload followed by one selector byte (= `Seed::aux` for the drivers that take a schema / block count).
+    Blob { name: String, bytes: std::sync::Arc<Vec<u8>> },
+}
+
+/// (payload, aux) of a fuzz-stage input: the last byte selects the auxiliary parameter.
+pub fn blob_split(b: &[u8]) -> (&[u8], usize) {
+    match b.split_last() {
+        Some((sel, payload)) => (payload, (*sel % 8) as usize),
+        None => (b, 0),
+    }
 }
 
 impl Mut {
@@ -347,6 +358,7 @@ impl Mut {
             Mut::Field { .. } => "field",
             Mut::Chunk { .. } => "chunk",
             Mut::Havoc(_) => "havoc",
+            Mut::Blob { .. } => "fuzz",
         }
     }
     pub fn describe(&self) -> Value {
@@ -356,6 +368,7 @@ impl Mut {
             Mut::Field { off, width, val, tag } => json!({"kind": "field", "offset": off, "width": width, "value": val, "value_tag": tag}),
             Mut::Chunk { op, off, other } => json!({"kind": "chunk", "op": op, "chunk_offset": off, "other_offset": other}),
             Mut::Havoc(n) => json!({"kind": "havoc", "n": n}),
+            Mut::Blob { name, bytes } => json!({"kind": "blob", "name": name, "len": bytes.len(), "hex": vh_common::hex(bytes)}),
         }
     }
 }
@@ -376,6 +389,7 @@ impl Mut {
                 Some(Mut::Chunk { op, off: us("chunk_offset")?, other: us("other_offset").unwrap_or(0) })
             }
             "havoc" => Some(Mut::Havoc(v["n"].as_u64()?)),
+            "blob" => Some(Mut::Blob { name: v["name"].as_str().unwrap_or("witness").to_string(), bytes: std::sync::Arc::new(vh_common::unhex(v["hex"].as_str()?)) }),
             _ => None,
         }
     }
@@ -522,6 +536,11 @@ pub fn apply(fmt: &FormatDef, seed: &Seed, m: &Mut, verif_seed: u64) -> Vec<u8> 
         }
         Mut::Chunk { op, off, other } => chunk_op(seed, op, *off, *other),
         Mut::Havoc(n) => havoc(seed, verif_seed, fmt.name, *n),
+        Mut::Blob { bytes, .. } => {
+            let mut d = blob_split(bytes).0.to_vec();
+            d.truncate(MAX_INPUT);
+            d
+        }
     }
 }
 
@@ -899,6 +918,14 @@ pub struct Probe<'a> {
 }
 
 impl<'a> Probe<'a> {
+    /// A probe outside the forked batch engine (fuzz targets): same call wrappers, nothing is reported anywhere —
+    /// the fuzzing stage only *generates* inputs, every input it keeps is judged later by the native worker.
+    pub fn standalone(fmt: &FormatDef, shm: &'a Shm, scratch: PathBuf) -> Probe<'a> {
+        Probe {
+            fmt: fmt.name, family: fmt.family, entries: fmt.entries, shm, fd: -1, k: 0, seed_label: String::from("fuzz"), mdesc: Value::Null,
+            case_idx: 0, variants_sent: BTreeSet::new(), sigs_sent: BTreeSet::new(), scratch, all_ok: true, seed_valid: None,
+        }
+    }
     fn send(&self, v: &Value) {
         let line = format!("{}\n", v);
         raw_write(self.fd, line.as_bytes());
@@ -1133,6 +1160,14 @@ fn run_slice(fmt: &FormatDef, seed: &Seed, muts: &[(usize, &Mut)], verif_seed: u
             };
             for (k, m) in muts {
                 let bytes = apply(fmt, seed, m, verif_seed);
+                let blob_seed;
+                let seed = match m {
+                    Mut::Blob { bytes: b, .. } => {
+                        blob_seed = Seed::new(seed.label.clone(), Vec::new(), Layout::Fixed { regions: vec![] }).with_aux(blob_split(b).1);
+                        &blob_seed
+                    }
+                    _ => seed,
+                };
                 p.k = *k;
                 p.mdesc = m.describe();
                 p.all_ok = true;
@@ -1379,7 +1414,27 @@ pub const BATCH: usize = 400;
 
 /// The whole case space of a worker: deterministic in (tier); only havoc *content* depends on VERIF_SEED.
 pub fn plan(formats: &[FormatDef], seeds: &[Vec<Seed>], thorough: bool, havoc_quick: u64, havoc_thorough: u64) -> Vec<Batch> {
+    plan_with_blobs(formats, seeds, thorough, havoc_quick, havoc_thorough, &[], false)
+}
+
+/// `blobs[fi]` = inputs of the fuzzing stage for format `fi` (file name, bytes incl. selector byte). With `blobs_only` the plan
+/// consists of nothing else (the supervisor runs the fuzz stage as a pass of its own, after the deterministic plan).
+pub fn plan_with_blobs(formats: &[FormatDef], seeds: &[Vec<Seed>], thorough: bool, havoc_quick: u64, havoc_thorough: u64, blobs: &[Vec<(String, Vec<u8>)>], blobs_only: bool) -> Vec<Batch> {
     let mut out = Vec::new();
+    for (fi, _) in formats.iter().enumerate() {
+        let (Some(bl), Some(ss)) = (blobs.get(fi), seeds.get(fi)) else { continue };
+        if ss.is_empty() {
+            continue;
+        }
+        let mut first = 0;
+        for ch in bl.chunks(BATCH) {
+            out.push(Batch { fmt: fi, seed: 0, kind: "fuzz", first, muts: ch.iter().map(|(n, b)| Mut::Blob { name: n.clone(), bytes: std::sync::Arc::new(b.clone()) }).collect() });
+            first += ch.len();
+        }
+    }
+    if blobs_only {
+        return out;
+    }
     for (fi, f) in formats.iter().enumerate() {
         let ss = &seeds[fi];
         if ss.is_empty() {
@@ -1541,10 +1596,47 @@ pub fn worker_main(formats: Vec<FormatDef>, havoc_quick: u64, havoc_thorough: u6
             }
         }
     }
-    let mut batches = plan(&formats, &seeds, thorough, havoc_quick, havoc_thorough);
+    // `--dump-seeds <dir>`: write every seed as <dir>/<format>/<nn>-<label> (+ selector byte) — the initial corpus of the
+    // fuzzing stage — and stop
+    if let Some(dir) = run.args.get("dump-seeds") {
+        for (fi, f) in formats.iter().enumerate() {
+            let d = PathBuf::from(dir).join(f.name);
+            let _ = std::fs::create_dir_all(&d);
+            for (si, s) in seeds[fi].iter().enumerate() {
+                let mut b = s.bytes.clone();
+                b.push((s.aux % 8) as u8);
+                let label: String = s.label.chars().map(|c| if c.is_ascii_alphanumeric() || c == '-' || c == '.' { c } else { '_' }).collect();
+                let _ = std::fs::write(d.join(format!("{si:02}-{label}")), &b);
+            }
+        }
+        return;
+    }
+    // `--blobs-dir <dir>`: inputs kept by the fuzzing stage, <dir>/<format>/*; `--blobs-only` drops the deterministic plan
+    let mut blobs: Vec<Vec<(String, Vec<u8>)>> = Vec::new();
+    if let Some(dir) = run.args.get("blobs-dir") {
+        for f in &formats {
+            let mut v: Vec<(String, Vec<u8>)> = Vec::new();
+            if let Ok(rd) = std::fs::read_dir(PathBuf::from(dir).join(f.name)) {
+                let mut names: Vec<PathBuf> = rd.filter_map(|e| e.ok().map(|e| e.path())).filter(|p| p.is_file()).collect();
+                names.sort();
+                for p in names {
+                    if let Ok(b) = std::fs::read(&p) {
+                        if b.len() <= MAX_INPUT + 1 {
+                            v.push((p.file_name().map(|n| n.to_string_lossy().to_string()).unwrap_or_default(), b));
+                        }
+                    }
+                }
+            }
+            blobs.push(v);
+        }
+    }
+    let blobs_only = run.args.get("blobs-only").is_some();
+    let mut batches = plan_with_blobs(&formats, &seeds, thorough, havoc_quick, havoc_thorough, &blobs, blobs_only);
     // witness replay: `--wseed <label> --wmut <json as printed in a witness>` runs exactly that mutant as case 0,
     // independent of the position the mutant has in the current plan
-    if let (Some(label), Some(mj)) = (run.args.get("wseed"), run.args.get("wmut")) {
+    // (`--wmut-file <path>` carries the same JSON in a file: a fuzz-stage input does not fit into one argv string)
+    let wmut_text: Option<String> = run.args.get("wmut").map(|s| s.to_string()).or_else(|| run.args.get("wmut-file").and_then(|p| std::fs::read_to_string(p).ok()));
+    if let (Some(label), Some(mj)) = (run.args.get("wseed"), wmut_text.as_deref()) {
         let m = serde_json::from_str::<Value>(mj).ok().and_then(|v| Mut::from_json(&v));
         let loc = seeds.iter().enumerate().find_map(|(fi, ss)| ss.iter().position(|s| s.label == label).map(|si| (fi, si)));
         batches = match (m, loc) {
